@@ -32,6 +32,20 @@ ASSUMPTIONS = ["numpy Generator(seed).random() stream is read in Python and pass
 
 def cases(rng, tier):
     N = 150 if tier == "quick" else 2500
+    # circuits in which nothing (or only full-width barriers) happens: trivially feasible, nothing to cut
+    for nq, instrs in ((3, []), (4, [{"name": "barrier", "qubits": [0, 1, 2, 3]}]), (1, []), (2, [{"name": "barrier", "qubits": [0, 1]}] * 2)):
+        yield ("find_cuts", {"nq": nq, "instrs": [dict(i) for i in instrs], "seed": rng.randrange(1 << 30), "max_gamma": 1024.0, "max_backjumps": 10000,
+                             "gate_lo": True, "wire_lo": rng.random() < 0.5, "width": rng.choice([1, 2]), "exact": True, "always_oracle": True})
+    # wire cuts only, width 2: the optimum cuts both wires of a gate whose qubits already share a subcircuit, and a later gate needs a cut
+    for _ in range(2 if tier == "quick" else 12):
+        perm = list(range(4))
+        rng.shuffle(perm)
+        pairs = [(0, 1), (2, 3), (0, 1), (1, 2), (0, 1)]
+        if rng.random() < 0.5:
+            pairs.append(rng.choice([(2, 3), (1, 2)]))
+        yield ("find_cuts", {"nq": 4, "instrs": [{"name": "cx", "qubits": [perm[a], perm[b]]} for a, b in pairs], "seed": rng.randrange(1 << 30),
+                             "max_gamma": 1e6, "max_backjumps": None, "gate_lo": False, "wire_lo": True, "width": 2, "exact": True,
+                             "always_oracle": True})
     for _ in range(N):
         yield ("find_cuts", cutfind.gen_case(rng, tier))
     # every registered two-qubit family once as the gate that has to be cut (its own overhead is then the reported one)
